@@ -38,7 +38,7 @@ DigestOf(s) ==
 Digests(e) == [i \in DOMAIN e.sent |-> DigestOf(e.sent[i])]
 SentMsgs(e, k) == {e.sent[i].msg : i \in {j \in DOMAIN e.sent : e.sent[j].msg.k = k}}
 
-NoHist == [pp |-> {}, p |-> {}, c |-> {}, vc |-> <<0, 0>>, commits |-> <<>>]
+NoHist == [pp |-> {}, p |-> {}, c |-> {}, vc |-> <<0, 0>>, commits |-> <<>>, rounds |-> <<>>]
 
 Init == /\ l = 1 /\ hdr = [com |-> <<<<"n0">>>>, w |-> [n0 |-> 1], byz |-> <<>>, nodes |-> <<>>]
         /\ obs = <<>> /\ cache = <<>> /\ chain = <<>> /\ approved = {} /\ hist = <<>>
@@ -133,6 +133,9 @@ Judge(e, n, pre, post) ==
              [] m.k = "C"  -> \E q \in post.cs : q.v = m.v /\ q.x = m.x /\ q.s = m.s
              [] OTHER -> TRUE,
          "c11_honest_message_rejected")
+  \* C13: the heights passed to the new-consensus-round callback strictly increase
+  /\ Chk(LET all == H.rounds \o [i \in DOMAIN e.rounds |-> e.rounds[i].h] IN
+           \A i, j \in DOMAIN all : (i < j /\ j > Len(H.rounds)) => all[i] < all[j], "c13_round_heights_not_increasing")
   \* C17 in situ: a message reaches the protocol logic of a term only if its height is that term's height
   /\ Chk(\A i \in DOMAIN e.stores : e.stores[i].h = e.stores[i].at, "c17_message_handled_by_term_of_other_height")
   \* C01 / C03 / C04 at every commit callback
@@ -169,7 +172,8 @@ NextHist(H, e) ==
    p  |-> H.p \cup {<<q.h, q.v, q.x>> : q \in SentMsgs(e, "P")},
    c  |-> H.c \cup {<<q.h, q.v, q.x>> : q \in SentMsgs(e, "C")},
    vc |-> IF SentMsgs(e, "VC") = {} THEN H.vc ELSE LET q == CHOOSE q \in SentMsgs(e, "VC") : TRUE IN <<q.h, q.v>>,
-   commits |-> H.commits \o [i \in DOMAIN e.commits |-> e.commits[i].h]]
+   commits |-> H.commits \o [i \in DOMAIN e.commits |-> e.commits[i].h],
+   rounds |-> H.rounds \o [i \in DOMAIN e.rounds |-> e.rounds[i].h]]
 
 Next ==
   /\ l <= Len(Trace)
